@@ -10,7 +10,7 @@ use std::cmp::Ordering;
 
 pub static PROP: Prop = Prop {
     id: "C17",
-    rule: "cases: Value::from(n) for n of every integer type (uniform bit patterns masked to random widths, plus boundary ladders 0, +-1, MIN, MAX, +-2^k+-1 around 2^63 and 2^96), f32/f64 (raw bit patterns incl. subnormal/inf/NaN, integers, decimal fractions, huge magnitudes), String/&str/bool/Decimal/Vec<Value> round trips, integer() on decimals of every scale (integral, boundary, non-integral, out of i64) and the exhaustive 6 accessors x 6 variants table. Non-trivial: |n| >= 2^63, a non-integral float, integer() on a number with scale > 0, or an accessor/variant mismatch; distinct by (source kind, magnitude class (bit length), scale, outcome class).",
+    rule: "cases: Value::from(n) for n of every integer type (uniform bit patterns masked to random widths, plus boundary ladders 0, +-1, MIN, MAX, +-2^k+-1 around 2^63 and 2^96), f32/f64 (raw bit patterns incl. subnormal/inf/NaN, integers, decimal fractions, huge magnitudes), String/&str/bool/Decimal/Vec<Value> round trips, integer() on decimals of every scale (integral, boundary, non-integral incl. fractions followed by 1-27 zeros, out of i64) and the exhaustive 6 accessors x 6 variants table. Non-trivial: |n| >= 2^63, a non-integral float, integer() on a number with scale > 0, or an accessor/variant mismatch; distinct by (source kind, magnitude class (bit length), scale, outcome class).",
     assumptions: &[
         "float conversions are compared with the stated tolerance max(1e-14*|x|, 1e-28) for f64 and max(1e-6*|x|, 1e-28) for f32, exact for integers up to 2^53 / 2^24",
         "Decimal's own mantissa()/scale()/sign accessors are trusted for reading a result",
@@ -483,7 +483,7 @@ fn fixed(env: &Env, st: &mut Stats) -> CaseResult {
     // integer() ladder
     if env.shard == 0 {
         for text in [
-            "0", "-0.0", "3", "3.0", "3.0000000000000000000000000000", "-3.00", "3.5", "0.0000000000000000000000000001", "9223372036854775807", "9223372036854775807.0",
+            "1.5000000000", "2.50000000000000000000", "0.1000000000000000000000000000", "7.000000000100000000", "0", "-0.0", "3", "3.0", "3.0000000000000000000000000000", "-3.00", "3.5", "0.0000000000000000000000000001", "9223372036854775807", "9223372036854775807.0",
             "9223372036854775808", "-9223372036854775808", "-9223372036854775808.000", "-9223372036854775809", "9223372036854775807.5", "79228162514264337593543950335",
             "-79228162514264337593543950335", "7.9228162514264337593543950335", "1000000000000000000.0000000000", "0.9999999999999999999999999999",
         ] {
@@ -537,8 +537,22 @@ fn case(src: &mut Src, st: &mut Stats, _env: &Env) -> CaseResult {
         }
         _ => {
             // decimals for integer(): integral with scale, boundary, arbitrary
-            let d = match src.pick(4) {
+            let d = match src.pick(5) {
                 0 => gen_decimal(src),
+                4 => {
+                    // a non-integral value whose fraction is followed by many zeros (1.5000000000)
+                    let zeros = 1 + src.pick(27) as u32;
+                    let frac_digits = 1 + src.pick((28 - zeros) as usize) as u32;
+                    let n = Big::from_u64(src.u64() >> (20 + src.pick(44)));
+                    let f = 1 + src.pick(9) as u64;
+                    let mant = n.mul(&Big::pow10(frac_digits)).add(&Big::from_u64(f)).mul(&Big::pow10(zeros));
+                    let d = BigDec { neg: src.chance(1, 2), mant, scale: frac_digits + zeros };
+                    if d.fits() {
+                        d
+                    } else {
+                        BigDec::from_literal("1.5000000000").unwrap()
+                    }
+                }
                 1 => {
                     // integral value n written with scale s (mantissa n * 10^s must fit)
                     let s = src.pick(29) as u32;
